@@ -1,7 +1,7 @@
 #!/usr/bin/env python3
 """import every seed whose CONFIRM line says: demo ok on HEAD, suite passes with patch, demo fails with patch"""
 import re, subprocess, sys, glob
-sys.path.insert(0, "/tmp")
+sys.path.insert(0, "/verif/tools")
 from seed_table import T
 lines = []
 for f in glob.glob("/tmp/confirm-*.out"):
